@@ -1,4 +1,4 @@
-\* thorough: all histories of 7 steps after Init (path dependence)
+\* thorough: all histories of 7 Tick|Present steps after Init (path dependence), capacity 1 and 2
 SPECIFICATION Spec
 CONSTANTS
     Skew = 2
@@ -21,7 +21,7 @@ CONSTANTS
     MaxDev = 0
     DevVals = {"flip", "otherOrigin", "none"}
     PresentBudget = 0
-    BurstN = 64
+    BurstN = 0
     Mode = "tree"
     Depth = 8
 CHECK_DEADLOCK FALSE
